@@ -1,5 +1,109 @@
-import Cppcheck.Model.AstUnary
+import Cppcheck.Proofs.AstUnary
 import Cppcheck.Gen.AstLadder
-/- C07 — property theorems (under construction) -/
+/-
+C07 — expression trees follow the C/C++ operator grammar: property theorems.
+
+Objects (Model/AstLadder.lean, Model/AstUnary.lean):
+  `Ladder`            a precedence table as cppcheck's compile* ladder encodes it; `Gen.AstLadder.astLadder` is the table
+                      extracted from the current lib/tokenlist.cpp
+  `PExpr`             parse trees of the expression grammar, parentheses explicit; `print`, `toAst` (the tree cppcheck
+                      should store), `strip` (forget parentheses), `minParen` (fewest parentheses)
+  `Gram L false ls e` e is derivable from the non-terminal of level list `ls` (ISO grammar shape: left-associative
+                      levels, the right-associative assignment / conditional level, middle operand of ?: a full expression)
+  `astOf L cpp ts`    model of prepareTernaryOpForAST (twice) + createAst (compileExpression) on a token list
+
+All theorems are for every tree of any size and nesting; `need e ≤ L.maxDepth` is the AST_MAX_DEPTH guard (deeper
+inputs are rejected by cppcheck, so the property says nothing about them).
+-/
 namespace Cppcheck.AstLadder
+open PExpr
+
+/-- the table extracted from the working tree is the ISO C++20 [expr] table (which contains C17 6.5.5–6.5.17):
+same levels in the same order, same operators per level, same associativity -/
+theorem extracted_table_is_C : tableEq Gen.AstLadder.astLadder.toTable isoTable = true := by decide
+
+/-- the extracted functions really form a ladder (each level's callee is the next level) and the table is well-formed -/
+theorem extracted_ladder_wf : Gen.AstLadder.astLadder.chain = true ∧ Gen.AstLadder.astLadder.WF = true := by decide
+
+/-- MAIN THEOREM.  For every well-formed table, every parse tree `e` of the expression grammar over it (any
+parenthesisation the grammar admits, any size), `print e` followed by `)`, `]`, `;` or nothing is turned by
+prepareTernaryOpForAST + createAst into exactly one tree: `toAst e`, each operator with the operands the grammar
+gives it.  Hypotheses: the depth guard, and `declOK`: no `(` is followed by something `skipDecl` takes for a
+declaration (see `paren_decl_counterexample_tokens` / docs: that exclusion is a finding). -/
+theorem createAst_follows_grammar {L : Ladder} (hL : L.WF = true) (cpp : Bool) (e : PExpr)
+    (hg : Gram L false L.levels e = true) (hd : (prepE e).declOK = true) (hn : e.need ≤ L.maxDepth)
+    (rest : List Tok) (hr : endOK rest = true) (ha : rest.all Tok.inAlphabet = true) (hq : ∀ t ∈ rest, t ≠ Tok.op ['?']) :
+    astOf L cpp (e.print ++ rest) = .ok ⟨(prepE e).print.reverse, rest, [⟨(prepE e).rootOff, e.toAst⟩], 0⟩ :=
+  astOf_print hL cpp e hg hd hn rest hr ha hq
+
+/-- the same for the table of the working tree -/
+theorem createAst_follows_grammar_extracted (cpp : Bool) (e : PExpr)
+    (hg : Gram Gen.AstLadder.astLadder false Gen.AstLadder.astLadder.levels e = true) (hd : (prepE e).declOK = true)
+    (hn : e.need ≤ Gen.AstLadder.astLadder.maxDepth) :
+    astOf Gen.AstLadder.astLadder cpp (e.print ++ [Tok.op [';']]) =
+      .ok ⟨(prepE e).print.reverse, [Tok.op [';']], [⟨(prepE e).rootOff, e.toAst⟩], 0⟩ :=
+  astOf_print extracted_ladder_wf.2 cpp e hg hd hn _ rfl rfl (by simp)
+
+/-- round trip: printing a parenthesis-free tree with the fewest parentheses and parsing it back gives the tree -/
+theorem ladder_roundtrip {L : Ladder} (hL : L.WF = true) (cpp : Bool) (e : PExpr) (he : over L e = true)
+    (hd : (prepE (minParen L L.levels e)).declOK = true) (hn : e.need ≤ L.maxDepth) :
+    ∃ st, astOf L cpp ((minParen L L.levels e).print ++ [Tok.op [';']]) = .ok st ∧
+      st.inp = [Tok.op [';']] ∧ st.stk.map Entry.ast = [e.toAst] := by
+  have hg := gram_minParen hL e he L.levels (Suffix.refl L)
+  have hn' : (minParen L L.levels e).need ≤ L.maxDepth := by
+    rw [← need_strip, strip_minParen L e he]; exact hn
+  refine ⟨_, astOf_print hL cpp _ hg hd hn' _ rfl rfl (by simp), rfl, ?_⟩
+  simp only [List.map_cons, List.map_nil]
+  rw [← toAst_strip, strip_minParen L e he]
+
+/-- redundant parentheses never change the tree: two grammatical strings that differ only in parentheses give the
+same tree, namely that of the parenthesis-free tree -/
+theorem ladder_respects_parens {L : Ladder} (hL : L.WF = true) (cpp : Bool) (e : PExpr)
+    (hg : Gram L false L.levels e = true) (hd : (prepE e).declOK = true) (hn : e.need ≤ L.maxDepth) :
+    ∃ st, astOf L cpp (e.print ++ [Tok.op [';']]) = .ok st ∧ st.stk.map Entry.ast = [(strip e).toAst] := by
+  refine ⟨_, astOf_print hL cpp e hg hd hn _ rfl rfl (by simp), ?_⟩
+  simp [toAst_strip]
+
+/-- "the expression in the middle of the conditional operator is parsed as if parenthesised": with or without
+parentheses around the middle operand (whatever it contains: commas, assignments, other conditionals) the tree is
+`?`(c, `:`(t, e)) -/
+theorem ternary_middle_as_parenthesised {L : Ladder} (hL : L.WF = true) (cpp : Bool) (c t e : PExpr)
+    (hg : Gram L false L.levels (tern c t e) = true)
+    (hd1 : (prepE (tern c t e)).declOK = true) (hd2 : (prepE (tern c (paren t) e)).declOK = true)
+    (hn : (tern c t e).need ≤ L.maxDepth) :
+    ∃ st1 st2, astOf L cpp ((tern c t e).print ++ [Tok.op [';']]) = .ok st1 ∧
+      astOf L cpp ((tern c (paren t) e).print ++ [Tok.op [';']]) = .ok st2 ∧
+      st1.stk.map Entry.ast = [.node ['?'] c.toAst (.node [':'] t.toAst e.toAst)] ∧
+      st2.stk.map Entry.ast = st1.stk.map Entry.ast := by
+  have hg2 : Gram L false L.levels (tern c (paren t) e) = true := by
+    simp only [Gram] at hg ⊢; exact hg
+  refine ⟨_, _, astOf_print hL cpp _ hg hd1 hn _ rfl rfl (by simp),
+    astOf_print hL cpp _ hg2 hd2 (by simpa [need] using hn) _ rfl rfl (by simp), ?_, ?_⟩ <;> simp [toAst]
+
+/-- assignment is right-associative in the table of the working tree: `a o1 b o2 c` is `a o1 (b o2 c)` for all
+assignment operators -/
+theorem assign_right_assoc (cpp : Bool) (a b c o1 o2 : Wire.Str) (h1 : o1 ∈ assignOps) (h2 : o2 ∈ assignOps) :
+    ∃ st, astOf Gen.AstLadder.astLadder cpp [Tok.var a, Tok.op o1, Tok.var b, Tok.op o2, Tok.var c, Tok.op [';']] = .ok st ∧
+      st.stk.map Entry.ast = [.node o1 (.leaf a) (.node o2 (.leaf b) (.leaf c))] := by
+  have key : ∀ o ∈ assignOps, ∀ o' ∈ assignOps, ∀ x y z : PExpr, (match x, y, z with | .var _, .var _, .var _ => true | _, _, _ => false) = true →
+      Gram Gen.AstLadder.astLadder false Gen.AstLadder.astLadder.levels (bin o x (bin o' y z)) = true := by
+    intro o ho o' ho' x y z hxyz
+    match x, y, z, hxyz with
+    | .var _, .var _, .var _, _ =>
+      simp only [assignOps, List.mem_cons, List.not_mem_nil, or_false] at ho ho'
+      rcases ho with rfl | rfl | rfl | rfl | rfl | rfl | rfl | rfl | rfl | rfl | rfl <;>
+      rcases ho' with rfl | rfl | rfl | rfl | rfl | rfl | rfl | rfl | rfl | rfl | rfl <;> rfl
+  have hg := key o1 h1 o2 h2 (var a) (var b) (var c) rfl
+  refine ⟨_, astOf_print extracted_ladder_wf.2 cpp (bin o1 (var a) (bin o2 (var b) (var c))) hg rfl (by simp [need, Gen.AstLadder.astLadder]) _ rfl rfl (by simp), ?_⟩
+  simp [toAst, Ast.leaf]
+
+/-- the hypotheses of the theorems are satisfiable by non-trivial trees: `a = b + c * (d, e) ? f : g` -/
+example : let e := bin ['='] (var ['a']) (tern (bin ['+'] (var ['b']) (bin ['*'] (var ['c']) (paren (bin [','] (var ['d']) (var ['e'])))))
+                    (var ['f']) (var ['g']))
+    Gram Gen.AstLadder.astLadder false Gen.AstLadder.astLadder.levels e = true ∧ (prepE e).declOK = true ∧
+      e.need ≤ Gen.AstLadder.astLadder.maxDepth := by decide
+
+example : over Gen.AstLadder.astLadder (bin ['*'] (bin ['+'] (var ['a']) (var ['b'])) (tern (var ['c']) (bin [','] (var ['d']) (var ['e'])) (var ['f']))) = true := by
+  decide
+
 end Cppcheck.AstLadder
